@@ -89,7 +89,21 @@ fn harness_fail(plan: Plan, e: String) -> RunOut {
 
 pub fn evaluate(p: &dyn Profile, reg: &Reg, plan: Plan, rec: &RunRecord) -> RunOut {
     let mut cells = Cells::default();
-    let findings = p.check(&plan, rec, reg, &mut cells);
+    let mut harness_error = rec.harness_error.clone();
+    let findings = match std::panic::catch_unwind(std::panic::AssertUnwindSafe(|| {
+        let mut c = Cells::default();
+        let f = p.check(&plan, rec, reg, &mut c);
+        (f, c)
+    })) {
+        Ok((f, c)) => {
+            cells = c;
+            f
+        }
+        Err(_) => {
+            harness_error = Some("a monitor panicked".to_string());
+            vec![]
+        }
+    };
     let (armed, collateral): (Vec<_>, Vec<_>) =
         findings.into_iter().partition(|f| f.property == p.property());
     let mut txs = 0;
@@ -111,7 +125,7 @@ pub fn evaluate(p: &dyn Profile, reg: &Reg, plan: Plan, rec: &RunRecord) -> RunO
     RunOut {
         shape: shape_hash(rec),
         log_hash: log_hash(rec),
-        harness_error: rec.harness_error.clone(),
+        harness_error,
         plan,
         armed,
         collateral,
